@@ -437,6 +437,11 @@ def recipes(chk):
         for m in (0, 3, 16):
             out.append(hist(m, [rng.choice([9, 11, 1000])]
                             + rnd(rng.randrange(1, 12), small + [1000])))
+    # (the cases below draw from their own generator, so that what follows
+    # them sees the same chk.rng stream whether or not they exist)
+    import random as _random
+    rng0 = rng
+    rng = _random.Random(chk.seed * 1000003 + 4)
     # one worker (max_parallel_tasks 0 / 1): every file is searched by the
     # same process; files alternate between int-typed and float-typed
     # captures of the same numbers (1 == 1.0)
@@ -478,6 +483,7 @@ def recipes(chk):
                 rec['files'].append({'vol': rec['files'][t0]['vol'],
                                      'seed': 0, 'seq': False,
                                      'alias_of': t0})
+    rng = rng0
     # strict decoding (the default) and a file with invalid UTF-8: the
     # multi-file run must fail like the search of that file alone does
     bad = files([10, 9, 11], 0)
